@@ -12,5 +12,7 @@ CONSTANTS
   NoEvent = {3, 6, 9, 12}
   Big = {2, 5, 6, 11}
   SlotRep <- MCSlotRep3
+  OCells = {0, 1}
+  OKeys = {1, 2}
   Forms = {"direct", "shift", "bad", "fn", "reput", "peek"}
 INVARIANTS TypeOK Conservation OnePlace WellFormed EventsOnce IdleClean SimEmit
